@@ -418,6 +418,7 @@ fn main() {
             Verdict::Agree => {
                 suite_compared += 1;
                 ev.hit("suite.agree");
+                ev.hit(&format!("suite.agree.{}", file.trim_end_matches(".rs")));
             }
             Verdict::Skip(w) => ev.hit(&format!("suite.skip.{}", w.split(':').next().unwrap_or(""))),
             Verdict::Disagree { model, imp } => {
@@ -429,7 +430,7 @@ fn main() {
     ev.set_extra("suite_sources", json!({"total": suite_total, "compared": suite_compared}));
 
     // ---- 3. generated programs ---------------------------------------------------------------------
-    let n = opts.tier.pick(3000u64, 60000u64);
+    let n = opts.tier.pick(25000u64, 150000u64);
     let mut accepted = 0u64;
     let mut rejected = 0u64;
     let mut reject_kinds: HashMap<String, u64> = HashMap::new();
@@ -503,7 +504,7 @@ fn main() {
             m.split(' ').next().unwrap_or("?")
         };
         ev.hit(&format!("reference-outcome.{outcome_class}"));
-        ev.sample_sparse(i, 400, || json!({"source": p.src(), "reference": m, "implementation": format!("{imp:?}")}));
+        ev.sample_sparse(i, 2500, || json!({"source": p.src(), "reference": m, "implementation": format!("{imp:?}")}));
         match v {
             Verdict::Agree => ev.hit("gen.agree"),
             Verdict::Skip(w) => ev.hit(&format!("gen.skip.{}", w.split(':').next().unwrap_or(""))),
